@@ -476,8 +476,8 @@ func c04ApplyPreset(c *Ctx, gv *ast.FuncDecl, seedIn func(ast.Expr, int) (BV, bo
 		if !ok || be.Op != token.EQL {
 			continue
 		}
-		l, lok := an.Unparen(be.X).(*ast.CallExpr)
-		rr, rok := an.Unparen(be.Y).(*ast.CallExpr)
+		l, lok := an.Unparen(inlineLocal(fn, be.X)).(*ast.CallExpr)
+		rr, rok := an.Unparen(inlineLocal(fn, be.Y)).(*ast.CallExpr)
 		if !lok || !rok || !isGV(l) || !isGV(rr) {
 			continue
 		}
